@@ -562,48 +562,116 @@ def r_instantiation(repo, rep, R):
     """what uni[key] hands back is the matched category with each atom's feature replaced *as a whole* when that very
     feature was bound, and left alone otherwise: an atom keeps its base, a functor is rebuilt from its two instantiated
     sides with its own slash.  (Filling single variables of a three-part feature by name would mix up variables of
-    different atoms: X1 is `mod` in one triple and `case` in another.)"""
+    different atoms: X1 is `mod` in one triple and `case` in another.)  The reader is found through what __getitem__
+    returns: a closure, a method of the matcher, a module-level function that is handed the table, or a pair of methods
+    of the two category classes."""
     mod = repo.module(UNI)
+    cat = repo.module('depccg/cat.py')
     gi = mod.get('Unification.__getitem__')
-    rec = mod.get('Unification.__getitem__.rec', required=False)
     w = '%s:%s Unification.__getitem__' % (UNI, gi.lineno)
-    if rec is None or rec is gi:
-        raise AnalysisError('%s: the recursive reader of Unification.__getitem__ was not found' % UNI)
-    p = [a.arg for a in rec.args.args if a.arg != 'self'][0]
-    X = N(p)
-    S_ = N(gi.args.args[0].arg)
-    MAP = A(S_, 'mapping')
-    bound = ('cmp', 'in', A(X, 'feature'), MAP)
-    want_fn = ('call', A(X, 'functor'), (('call', N(rec.name), (A(X, 'left'),), ()), ('call', N(rec.name), (A(X, 'right'),), ())), ())
-    want_hit = ('call', N('Atom'), (A(X, 'base'), ('sub', MAP, A(X, 'feature'))), ())
-    get_form = ('call', N('Atom'), (A(X, 'base'), ('call', A(MAP, 'get'), (A(X, 'feature'), A(X, 'feature')), ())), ())
+    SELF = N(gi.args.args[0].arg)
+    names = set()
+    for st, out in SymExec(gi, unroll=1, inline=False).run():
+        if out == 'return' and st.ret is not None and st.ret[0] == 'call':
+            f = st.ret[1]
+            if f[0] == 'name':
+                names.add(f[1])
+            elif f[0] == 'func':
+                names.add(f[1])
+            elif f[0] == 'attr':
+                names.add(f[2])
+    names -= {'Atom', 'Functor'}
+    if len(names) != 1:
+        raise AnalysisError('%s: cannot tell what Unification.__getitem__ returns (%s)' % (UNI, sorted(names)))
+    nm = names.pop()
+    defs = []           # (function, X term, table term or None = found on the path, owner)
+    for f_ in ast.walk(gi):
+        if isinstance(f_, ast.FunctionDef) and f_ is not gi and f_.name == nm:
+            defs.append((f_, mod, 'closure'))
+    uni_cls = mod.get('Unification')
+    for f_ in uni_cls.body:
+        if isinstance(f_, ast.FunctionDef) and f_.name == nm:
+            defs.append((f_, mod, 'method'))
+    for f_ in mod.tree.body:
+        if isinstance(f_, ast.FunctionDef) and f_.name == nm:
+            defs.append((f_, mod, 'function'))
+    for cname in ('Atom', 'Functor', 'Category'):
+        c_ = cat.get(cname, required=False)
+        for f_ in (c_.body if c_ is not None else []):
+            if isinstance(f_, ast.FunctionDef) and f_.name == nm:
+                defs.append((f_, cat, 'category:' + cname))
+    if not defs:
+        raise AnalysisError('%s: the reader `%s` that Unification.__getitem__ returns through was not found' % (UNI, nm))
+    seen = {'hit': 0, 'miss': 0, 'fn': 0}
     bad = []
     n = 0
-    for st, out in SymExec(rec, unroll=1, init_env={rec.name: ('func', rec.name, id(rec))}).run():
-        if out != 'return' or st.ret is None:
+    for fn, m_, kind in defs:
+        ps = [a.arg for a in fn.args.args]
+        if kind.startswith('category:'):
+            X = N(ps[0])
+            tables = [N(p_) for p_ in ps[1:]]
+        elif kind == 'method':
+            X = N(ps[1]) if len(ps) > 1 else None
+            tables = [A(N(ps[0]), 'mapping')] + [N(p_) for p_ in ps[2:]]
+        elif kind == 'closure':
+            X = N(ps[0]) if ps else None
+            tables = [A(SELF, 'mapping')] + [N(p_) for p_ in ps[1:]]
+        else:
+            X = N(ps[0]) if ps else None
+            tables = [N(p_) for p_ in ps[1:]]
+        if X is None:
             continue
-        n += 1
-        r = st.ret
-        # recursive calls appear as calls of the function value
-        def norm(t):
-            if not isinstance(t, tuple):
-                return t
-            if t and t[0] == 'func' and len(t) >= 2 and t[1] == rec.name:
-                return N(rec.name)
-            return tuple(norm(x) for x in t)
-        r = norm(r)
-        conds = [(c, pol) for c, pol, _ in st.conds]
-        is_fn = any(c == A(X, 'is_functor') and pol for c, pol in conds) or any(c == A(X, 'is_atomic') and not pol for c, pol in conds)
-        hit = [pol for c, pol in conds if c == bound]
-        if r == want_fn and is_fn:
-            continue
-        if r == get_form and not is_fn:
-            continue
-        if r == want_hit and hit and hit[-1]:
-            continue
-        if r == X and not is_fn and hit and not hit[-1]:
-            continue
-        bad.append('%s under %s' % (show(r)[:70], [('' if pol else 'not ') + show(c)[:40] for c, pol in conds][-2:]))
-    rep.check(n >= 2 and not bad, R, w, 'Unification.__getitem__:instantiation',
-              'a bound feature is replaced as a whole, every other atom is handed back unchanged, functors are rebuilt from their two sides (%d paths)' % n,
-              'the matched category is instantiated differently: %s -- features that neither input carries can appear in the result' % bad[:2])
+        selfname = N(ps[0]) if kind == 'method' else None
+
+        def is_rec(t, child):
+            """a call of the reader on `child` (closure / function / method of the matcher / method of the child)"""
+            if t[0] != 'call':
+                return False
+            f = t[1]
+            if f[0] == 'attr' and f[2] == nm and f[1] == child:
+                return all(a_ in tables for a_ in t[2])
+            direct = f == N(nm) or (f[0] == 'func' and f[1] == nm) or (selfname is not None and f == A(selfname, nm))
+            return direct and bool(t[2]) and t[2][0] == child and all(a_ in tables for a_ in t[2][1:])
+        for st, out in SymExec(fn, unroll=1, inline=False, init_env={fn.name: ('func', fn.name, id(fn))}).run():
+            if out != 'return' or st.ret is None:
+                continue
+            n += 1
+            r = st.ret
+            conds = [(c, pol) for c, pol, _ in st.conds]
+            is_fn = kind == 'category:Functor' or any(c == A(X, 'is_functor') and pol for c, pol in conds) or any(c == A(X, 'is_atomic') and not pol for c, pol in conds)
+            hits = [(c[3], pol) for c, pol in conds if c[0] == 'cmp' and c[1] == 'in' and c[2] == A(X, 'feature') and c[3] in tables]
+            hits += [(c[3], not pol) for c, pol in conds if c[0] == 'cmp' and c[1] == 'not in' and c[2] == A(X, 'feature') and c[3] in tables]
+            if r[0] == 'call' and is_fn:
+                args = list(r[2])
+                kw = dict(r[3])
+                if r[1] == A(X, 'functor') and len(args) == 2 and is_rec(args[0], A(X, 'left')) and is_rec(args[1], A(X, 'right')):
+                    seen['fn'] += 1
+                    continue
+                if r[1] == N('Functor'):
+                    l_ = kw.get('left', args[0] if args else None)
+                    s_ = kw.get('slash', args[1] if len(args) > 1 else None)
+                    r_ = kw.get('right', args[2] if len(args) > 2 else None)
+                    if l_ is not None and r_ is not None and is_rec(l_, A(X, 'left')) and s_ == A(X, 'slash') and is_rec(r_, A(X, 'right')):
+                        seen['fn'] += 1
+                        continue
+            if r[0] == 'call' and r[1] == N('Atom') and not is_fn:
+                args = list(r[2])
+                kw = dict(r[3])
+                b_ = kw.get('base', args[0] if args else None)
+                f_ = kw.get('feature', args[1] if len(args) > 1 else None)
+                if b_ == A(X, 'base') and f_ is not None:
+                    if f_[0] == 'sub' and f_[2] == A(X, 'feature') and hits and hits[-1] == (f_[1], True):
+                        seen['hit'] += 1
+                        continue
+                    if f_[0] == 'call' and f_[1][0] == 'attr' and f_[1][2] == 'get' and f_[1][1] in tables and f_[2] == (A(X, 'feature'), A(X, 'feature')):
+                        seen['hit'] += 1
+                        seen['miss'] += 1
+                        continue
+            if r == X and not is_fn and hits and not hits[-1][1]:
+                seen['miss'] += 1
+                continue
+            bad.append('%s under %s' % (show(r)[:70], [('' if pol else 'not ') + show(c)[:40] for c, pol in conds][-2:]))
+    ok = not bad and all(seen.values())
+    rep.check(ok, R, w, 'Unification.__getitem__:instantiation',
+              'a bound feature is replaced as a whole, every other atom is handed back unchanged, functors are rebuilt from their two sides (`%s`, %d paths)' % (nm, n),
+              'the matched category is instantiated differently (%s; cases seen %s) -- features that neither input carries can appear in the result' % (bad[:2], seen))
